@@ -9,6 +9,7 @@ from vp.ref import oversample as R
 
 PROPERTY = "C09"
 RULE = (
+    "reuse: 2-3 different functions evaluated one after the other on the same OverSamplerIterate / Grid2D object, each against the reference; "
     "grid / bin / decorated: Hypothesis masks up to 10x10 (8x8 for decorated) from the shared constructive mask "
     "families, isotropic or anisotropic pixel scales in [0.05,5], origins up to |100|, sub-size given as an int "
     "1..8, a constant per-pixel list or a mixed per-pixel integer list 1..8. Every case is run through every entry "
@@ -721,3 +722,79 @@ SUBCHECKS = [
     SubCheck("iterate_exact", body_exact, strategy=exact_cases(), examples={"quick": 500, "thorough": 12000},
              shards={"quick": 1, "thorough": 3}),
 ]
+
+# ---------------------------------------------------------------------------------------------
+# reuse: several different functions evaluated one after the other on the SAME sampler / grid object
+# (added after the independently seeded change C09a: a sampler cache keyed by sub-size only is invisible
+# when every evaluation builds fresh objects)
+# ---------------------------------------------------------------------------------------------
+@st.composite
+def reuse_cases(draw):
+    c = draw(frames(hi=6))
+    c["steps"] = draw(schedules())
+    c["frac"] = draw(st.sampled_from([0.5, 0.9, 0.99, 0.999, 0.9999, 0.8, 0.95]))
+    c["rel"] = draw(st.one_of(st.none(), st.sampled_from([1e-6, 1e-4, 1e-3, 1e-2])))
+    c["extra"] = None
+    k = draw(st.integers(2, 3))
+    c["fns"] = [draw(functions(c, family=draw(st.sampled_from(["profile", "profile", "mixed"])))) for _ in range(k)]
+    c["uniform_sub"] = draw(st.integers(1, 4))
+    return c
+
+
+def body_reuse(case, ctx):
+    aa = _aa()
+    P = _profiles()
+    m, ps, origin, mask = _frame(case)
+    steps = [int(v) for v in case["steps"]]
+    n = int((~m).sum())
+    _frame_labels(ctx, m, ps, origin)
+    sampler = aa.OverSamplerIterate(mask=mask, fractional_accuracy=case["frac"], relative_accuracy=case["rel"], sub_steps=steps)
+    grid_it = aa.Grid2D.from_mask(mask=mask, over_sampling=aa.OverSamplingIterate(
+        fractional_accuracy=case["frac"], relative_accuracy=case["rel"], sub_steps=steps))
+    grid_un = aa.Grid2D.from_mask(mask=mask, over_sampling=aa.OverSamplingUniform(sub_size=int(case["uniform_sub"])))
+    mixed = 0
+    for k, fn in enumerate(case["fns"]):
+        plain = R.feval(fn, R.centres(m, ps, origin))
+        if not np.any(plain):
+            ctx.label("excluded:all-zero-centres")
+            ctx.tie(n)
+            continue
+        levels = []
+        for sub in steps:
+            pts, owner = R.sub_grid(m, ps, origin, sub)
+            levels.append(R.bin_mean(R.feval(fn, pts), owner, n))
+        scale = max(1.0, float(np.abs(plain).max()), max(float(np.abs(l).max()) for l in levels))
+        delta = VALUE_REL * scale
+        ref = R.iterate_ref(plain, levels, float(case["frac"]), case["rel"], delta, exact_zero=R.zero_pixels(fn, m))
+        ok = ~ref["tied"]
+        ctx.tie(int(ref["tied"].sum()))
+        if len(set(ref["stop"][ok].tolist())) >= 2:
+            mixed += 1
+        prof = P["cls"](lambda pts, fn=fn: R.feval(fn, pts))
+        outs = [
+            ("sampler-reused", sampler.array_via_func_from(P["raw"], prof)),
+            ("grid-reused/decorator-to_array", _call(prof.stacked, grid_it, None)),
+        ]
+        for entry, out in outs:
+            got = _values_of(ctx, out, n, "reuse")
+            if got is None:
+                continue
+            bad = ok & ~(np.abs(got - ref["out"]) <= delta)
+            ctx.comparisons += int(ok.sum())
+            if bad.any():
+                p = int(np.argmax(bad))
+                ctx.fail("reuse/iterate/%s" % ("first-function" if k == 0 else "later-function"),
+                         "%s, function %d of %d on the same object: pixel %d: got %.17g, rule gives %.17g (levels %s)" % (
+                             entry, k, len(case["fns"]), p, got[p], ref["out"][p], [float(l[p]) for l in levels]))
+        # uniform over-sampling through the same grid object
+        pts, owner = R.sub_grid(m, ps, origin, int(case["uniform_sub"]))
+        want = R.bin_mean(R.feval(fn, pts), owner, n)
+        got = _values_of(ctx, _call(prof.stacked, grid_un, None), n, "reuse")
+        if got is not None:
+            ctx.close(got, want, "reuse/uniform/%s" % ("first-function" if k == 0 else "later-function"), atol=1e-9 * scale,
+                      what="uniform over-sampling, function %d on the same grid object" % k)
+    ctx.nt(mixed >= 1 and len(case["fns"]) >= 2)
+
+
+SUBCHECKS.append(SubCheck("reuse", body_reuse, strategy=reuse_cases(), examples={"quick": 200, "thorough": 4000},
+                          shards={"quick": 2, "thorough": 8}))
